@@ -183,7 +183,10 @@ Definition unb_pos1 (s : side) (existing : param) (conv : list param) (st : msta
   : res (mstate * list param) :=
   match conv with
   | o :: conv' =>
-      Ok (add_src1 (set_pos st (m_pos st ++ [concile existing o])) (pname existing) s, conv')
+      let st1 := set_pos st (m_pos st ++ [concile existing o]) in
+      Ok (if N.eqb (pname o) (pname existing)
+          then add_src2 st1 (pname existing) s (match s with L => R | R => L end)
+          else add_src1 st1 (pname existing) s, conv')
   | [] =>
       if isSome (varargs (other s)) then
         Ok (excl_va (add_src1 (set_pos st (m_pos st ++ [existing])) (pname existing) s)
